@@ -284,13 +284,13 @@ def c10(A):
                 q = r.info["qos"]
                 if q not in (0, 1, 2):
                     continue
-                st0 = boundary_state(A, A.conns[r.conn], r.i_call)
-                if st0 not in ("connected", "connecting"):
-                    continue
                 sent = bool(r.tx) and r.tx[0]["i"] < i_s
                 if q and sent and not r.fired_before(i_s):
                     outstanding = True
                     break
+                st0 = boundary_state(A, A.conns[r.conn], r.i_call)
+                if st0 not in ("connected", "connecting"):
+                    continue
                 if not sent and (q == 0 or not r.fired_before(i_s)):
                     if unsent is None:
                         unsent = r
